@@ -6,7 +6,8 @@ cd "$(dirname "$0")/.." || exit 2
 PYTHONDONTWRITEBYTECODE=1 /venv/bin/python tools/gen_consts.py || exit 1
 cd lean || exit 2
 flock .build.lock lake build TT ttdriver || exit 1
-for f in TT/Props/C*.lean; do
+for f in TT/Props/*.lean; do
+  [ "$(basename "$f")" = "All.lean" ] && continue
   m="TT.Props.$(basename "$f" .lean)"
   flock .build.lock lake build "$m" >/dev/null 2>&1 || echo "setup: $m does not build (its check will report it)"
 done
